@@ -1,14 +1,14 @@
-\* C10 leg A thorough: worlds of <= 3 series, matcher sets of <= 2 from 3 names x (EQ/NEQ x 4 literals +
-\* RE/NRE x {.*, .+, 6 alternations, 4 classes}), every lazy choice; histories of <= 3 queries + evictions
-\* over single n0 matchers (= and !~)
+\* C10 leg A thorough: worlds of <= 2 series (names n0 n1, values a b absent), matcher sets of <= 2 from
+\* 3 names (n0, n1 and the unused zz) x (EQ/NEQ x 3 literals + RE/NRE x {.*, .+, 4 alternations, 2 classes}),
+\* every lazy choice; histories of <= 3 queries + evictions over single = and != matchers on n0
 SPECIFICATION Spec
-CONSTANTS MaxSeries = 3
+CONSTANTS MaxSeries = 2
           MaxMatchers = 2
           MaxHistory = 3
-          Lits = {"", "a", "b", "c"}
+          Lits = {"", "a", "c"}
           MatcherNames = {"n0", "n1", "zz"}
           HistNames = {"n0"}
-          HistTypes = {"EQ", "NRE"}
+          HistTypes = {"EQ", "NEQ"}
           SetAlts <- SetAltsThorough
           ClsAlts <- ClsAltsThorough
 INVARIANT C10_AnswerIsTheSelection
